@@ -3,8 +3,8 @@
 package checks
 
 import (
-	"encoding/json"
 	"context"
+	"encoding/json"
 	"fmt"
 	"sort"
 	"strings"
